@@ -337,15 +337,22 @@ def setZ (o : Oti) (nb : Nat) : Oti :=
   | some (.raptor _ n al) => if o.enc = 1 then { o with scheme := some (.raptor nb n al) } else o
   | _ => o
 
-/-- the Reed-Solomon GF(2^8) admission checks of `FileDesc::new`: at least one parity symbol, and a block
-    (largest source block + parity) of at most 256 symbols.  `.ok true` = refused (`Err`), `.error` = panic. -/
+/-- the Reed-Solomon GF(2^8) admission checks of `FileDesc::new`, in its order: at least one parity symbol; the
+    configured block `B + parity` fits the code (255 symbols for the fully specified scheme, a u16 for the
+    under-specified one); the largest source block of this object + parity is at most 255 symbols.
+    `.ok true` = refused (`Err`), `.error` = panic (none is reachable for 48-bit lengths: C07). -/
 def rsRefused (o : Oti) (transferLength : Nat) : Rs Bool :=
   if o.enc = 5 ∨ o.enc = 129 then
     if o.parity = 0 then .ok true else
+    if (o.enc = 5 ∧ o.maxSbl + o.parity > 255) ∨ (o.enc = 129 ∧ o.maxSbl + o.parity > 65535) then .ok true else
     match Partition.blockPartitioning o.maxSbl transferLength o.esl with
     | .error w => .error w
-    | .ok q => .ok (decide (q.1 + o.parity > 256))
+    | .ok q => .ok (decide (q.1 + o.parity > 255))
   else .ok false
+
+/-- `q = (a_large, a_small, nb_a_large, nb_blocks)`: a Raptor partition with a block of 2 or 3 source symbols -/
+def raptorSmallBlock (enc : Nat) (q : Partition.Quad) : Bool :=
+  decide (enc = 1) && (decide (q.2.2.1 > 0 ∧ (q.1 = 2 ∨ q.1 = 3)) || decide (q.2.2.2 > q.2.2.1 ∧ (q.2.1 = 2 ∨ q.2.1 = 3)))
 
 /-- largest number of source symbols of one block the code supports -/
 def kMax (enc : Nat) : Nat := if enc = 6 then 56403 else 8192
@@ -370,6 +377,8 @@ def effectiveOti (dflt : Oti) (a : ObjAttrs) : Rs (Option Oti) :=
       | .ok q =>
         -- a source block larger than the code supports (K'_max = 56403 for RaptorQ, K_max = 8192 for Raptor): `Err`
         if q.1 > kMax o.enc then .ok none
+        -- Raptor (not RaptorQ): a partition that uses a block of 2 or 3 source symbols cannot be encoded: `Err`
+        else if raptorSmallBlock o.enc q then .ok none
         -- scheme parameters missing, or more source blocks than Z can hold (u8 for RaptorQ, u16 for Raptor): `Err`
         else if o.scheme.isNone then .ok none
         else if (o.enc = 6 ∧ q.2.2.2 > 255) ∨ (o.enc = 1 ∧ q.2.2.2 > 65535) then .ok none
